@@ -35,6 +35,7 @@ func devMain(args []string) {
 	verbose := fs.Bool("v", false, "verbose")
 	onlyObl := fs.String("obl", "", "show details for obligations containing this")
 	extraReq := fs.String("assume", "", "extra requires clause (development only)")
+	list := fs.String("list", "", "list indexed function names containing this and exit")
 	fs.Parse(args)
 	t0 := time.Now()
 	prog, err := LoadProgram(*repo, strings.Split(*pkgs, ","), "/verif/contracts/extern")
@@ -46,10 +47,18 @@ func devMain(args []string) {
 	for _, e := range prog.contracts.Errors {
 		fmt.Println("  contract error:", e)
 	}
+	if *list != "" {
+		for n := range prog.funcs {
+			if strings.Contains(n, *list) {
+				fmt.Println(n)
+			}
+		}
+		return
+	}
 	var results []*FuncResult
 	for _, name := range prog.contracts.Order {
 		c := prog.contracts.Funcs[name]
-		if c.Trusted || c.Kind != "func" {
+		if c.Trusted || c.Kind != "func" || (c.Inline && len(c.Ensures) == 0) {
 			continue
 		}
 		if *only != "" && !strings.Contains(name, *only) {
@@ -80,6 +89,22 @@ func devMain(args []string) {
 			}
 		}
 		results = append(results, r)
+	}
+	seenSpec := map[string]bool{}
+	for i := 0; i < len(results); i++ {
+		for _, sc := range results[i].SpecChecks {
+			key := prog.funcName(sc.fn) + "@" + sc.spec.Name
+			if seenSpec[key] {
+				continue
+			}
+			seenSpec[key] = true
+			r := prog.verifySpec(sc)
+			fmt.Printf("%s: %d obligations, %d paths\n", r.Name, len(r.Obligations), r.Paths)
+			for _, f := range r.Fatal {
+				fmt.Println("  FATAL:", f)
+			}
+			results = append(results, r)
+		}
 	}
 	os.RemoveAll(*work)
 	t2 := time.Now()
